@@ -130,6 +130,24 @@ pub fn run(ctx: &Ctx) -> Report {
         if let Some((sig, d)) = check(t) { acc.violation(sig, if t.len() > 200 { format!("ladder:{i}") } else { sig_input(t) }, format!("{d} on ladder input #{i} ({} bytes, starts {:?})", t.len(), &t[..t.len().min(30)])); }
     });
     rep.absorb(r);
+    // (f) every character whose upper- or lower-case mapping changes its length (in chars or UTF-8 bytes) or has no single-char mapping
+    //     ("special casing": sharp s, dotless/dotted i, ligatures, n-apostrophe, Greek with dialytika ...), found by scanning all of Unicode,
+    //     behind 0..=8 ASCII letters, in every token position: directive name, label, label with colon, operand, after R / x / #, in a string
+    let special: Vec<char> = (0u32..0x11_0000).filter_map(char::from_u32).filter(|c| {
+        let (u, l): (String, String) = (c.to_uppercase().collect(), c.to_lowercase().collect());
+        u.chars().count() != 1 || l.chars().count() != 1 || u.len() != c.len_utf8() || l.len() != c.len_utf8()
+    }).collect();
+    let ns = special.len() as u64;
+    let r = sweep(ctx, ns * 9, 16, |i, acc| {
+        let (c, pad) = (special[(i / 9) as usize], "a".repeat((i % 9) as usize));
+        for t in [format!(".{pad}{c}"), format!(".{pad}{c} x3000"), format!("{pad}{c}"), format!("{pad}{c}: HALT"), format!("{pad}{c} HALT"), format!(".fill {pad}{c}"), format!("LD R0, {pad}{c}"), format!("R{pad}{c}"), format!("x{pad}{c}"), format!("#{pad}{c}"),
+                  format!(".stringz \"{pad}{c}\""), format!(".external {pad}{c}\n.orig x3000\n.fill {pad}{}\n.end", c.to_uppercase().collect::<String>()), format!("{c}{pad}"), format!(".{c}{pad}")] {
+            acc.evals += 1; acc.transitions += 1; acc.count("special_casing_inputs", 1);
+            if let Some((sig, d)) = check(&t) { acc.violation(sig, sig_input(&t), format!("{d} on input {t:?}")); }
+        }
+    });
+    rep.absorb(r);
+    rep.bound("special_casing_characters", Json::i(ns));
     // scale: 12 kinds of very long / very repetitive inputs x 6 sizes (255 .. 10^6), each evaluated in its own process
     let r = sweep(ctx, (GEN_KINDS.len() * GEN_N.len()) as u64, 1, |i, acc| {
         let (kind, n) = ((i as usize) / GEN_N.len(), GEN_N[(i as usize) % GEN_N.len()]);
